@@ -78,6 +78,14 @@ func unfoldAlias(c *simkit.Choices, x *simkit.Ctx) *simkit.Violation {
 	if c.N(4) == 0 {
 		sc.KeyCache = 1 + c.N(4)
 	}
+	uv := 0
+	if c.N(5) == 0 {
+		uv = 1 + c.N(model.NumUnfolderVariants-1)
+		if c.Bool() {
+			te = model.TypeByName([]string{"Scored", "map[string]Score"}[c.N(2)])
+			sc.Target = te.Name
+		}
+	}
 	var docs [][]byte
 	for i := 0; i < nd; i++ {
 		evs := reuse.RecordFold(te.Gen(c))
@@ -134,7 +142,7 @@ func unfoldAlias(c *simkit.Choices, x *simkit.Ctx) *simkit.Violation {
 		var err error
 		pi := simkit.Guard(func() {
 			ptr, _, get := te.NewTarget()
-			u, e := gotype.NewUnfolder(ptr)
+			u, e := gotype.NewUnfolder(ptr, model.UnfolderOpts(uv)...)
 			if e != nil {
 				err = e
 				return
@@ -159,7 +167,7 @@ func unfoldAlias(c *simkit.Choices, x *simkit.Ctx) *simkit.Violation {
 	var failedDoc int
 	gcCount := 0
 	pi := simkit.Guard(func() {
-		u, err := gotype.NewUnfolder(nil)
+		u, err := gotype.NewUnfolder(nil, model.UnfolderOpts(uv)...)
 		if err != nil {
 			runErr = err
 			return
